@@ -24,7 +24,12 @@ RULE = ('a case = a kapture dataset built with the real kapture classes and writ
         'every image posed (quaternion classes: identity, random unit, non-unit scale 1e-3..1e3, near half turn, exact half '
         'turn, negative w, tiny angle), points3d absent / empty / 1-10 / 11-30 rows, features none / keypoints only / '
         'keypoints+descriptors / descriptors only on a subset of the images (float32, float64, uint8), matches none / pairs in '
-        'both orientations incl. empty pairs. A second stream is outside the range (unsupported camera type, unposed image, '
+        'both orientations incl. empty pairs, scores 1 / in (0,1) / 0 / negative / above 1; keypoints 2-7 columns; timestamps distinct, huge, '
+        'shared between cameras, or per-camera frame counters from 0 (synchronised cameras). One case in six is a HISTORY: an earlier '
+        'dataset (subset of the images, other poses / points, features extracted anew with other values, dtype or width, other match '
+        'pairs) was exported into the same directory first, the dataset under test is exported over it with '
+        'force_overwrite_existing False (60%) or True; judged when every features / matches file of the earlier export is written again '
+        '(covered history). A second stream is outside the range (leftover files of an earlier export that the new export does not write again, unsupported camera type, unposed image, '
         'rig-mounted camera, XYZ-only cloud, off-centre principal point, non-integral size): there only the outcome class and the '
         'conversion are compared with the model, the oracle does not judge. Non-trivial = in range and (more than 10 points or '
         'features or matches or a non-identity rotation); distinct = distinct case content.')
@@ -42,7 +47,11 @@ ASSUMPTIONS = ['known finding, reported as KNOWN-FINDING and not failing the che
                'single descriptors type; keypoint indices in match files are integral',
                'timestamps, sensor names, the match score column, GNSS/EXIF and non-camera sensors are not carried by an OpenSfM '
                'project and are not part of the property',
-               'the importer is called with the keypoints / descriptors type names of the input dataset']
+               'the importer is called with the keypoints / descriptors type names of the input dataset',
+               'histories: the export directory may hold an earlier export; judged when that export is covered (each of its features / '
+               'matches files is written again by the export under test); leftovers of an uncovered history survive in the code as it is '
+               '(theorem C15_reexport_leftover_keypoints_as_is, proposed repair in fixes/not-applied/): observed and compared with the '
+               'model, not judged']
 EXHAUSTIVE = {'quick': False, 'thorough': False}
 KP, DS = 'kp', 'ds'
 CAMTYPES = ['SIMPLE_PINHOLE', 'SIMPLE_RADIAL', 'RADIAL']
@@ -102,6 +111,11 @@ def _arr(rng, rows, cols, dtype):
     return [[rng.choice([rng.uniform(-1000, 1000), float(rng.randint(0, 2000))]) for _ in range(cols)] for _ in range(rows)]
 
 
+def _score(rng):
+    """the score column of a kapture matches file is free: similarities, distances, 0 for un-scored matches"""
+    return rng.choice([1.0, 1.0, round(rng.random(), 3), 0.0, 0.0, -round(rng.random(), 3), -1.0, round(rng.uniform(1, 500), 2)])
+
+
 def _valid_case(rng, big):
     ncam = rng.choice([1, 1, 2, 2, 3])
     cam_ids = rng.sample(['cam0', 'camB', 'a_cam', 'GoPro 7', '10', '2'], ncam)
@@ -127,13 +141,24 @@ def _valid_case(rng, big):
     if len({(im['ts'], im['cam']) for im in images}) < len(images):
         for i, im in enumerate(images):
             im['ts'] = 1000 + i
+    # synchronised cameras: every camera counts its own frames 0, 1, 2, ... (small timestamps, shared between the
+    # cameras, starting at 0 — the usual shape of a multi-camera recording); or one common frame counter from 0
+    r = rng.random()
+    if r < 0.3:
+        cnt = {}
+        for im in images:
+            im['ts'] = cnt.get(im['cam'], 0)
+            cnt[im['cam']] = im['ts'] + 1
+    elif r < 0.4:
+        for i, im in enumerate(rng.sample(images, len(images))):
+            im['ts'] = i
     r = rng.random()
     if r < 0.08:
         points = None
     elif r < 0.16:
         points = []
     else:
-        npts = rng.randint(11, 30) if (big or rng.random() < 0.6) else rng.randint(1, 10)
+        npts = rng.randint(11, 30) if (big or rng.random() < 0.45) else rng.randint(1, 10)
         points = []
         for _ in range(npts):
             col = [float(rng.randint(0, 255)) for _ in range(3)]
@@ -145,7 +170,7 @@ def _valid_case(rng, big):
     with_feat = [n for n in names if rng.random() < 0.75] or names[:1]
     if fmode in ('kp', 'both'):
         dt = rng.choice(['float32', 'float32', 'float64'])
-        cols = rng.choice([2, 4, 6])
+        cols = rng.choice([2, 4, 6, 6, 3, 5, 7])
         kp = {'dtype': dt, 'dsize': cols, 'data': {n: _arr(rng, rng.choice([0, 1, 2, 3, 5]), cols, dt) for n in with_feat}}
     if fmode in ('desc', 'both'):
         dt = rng.choice(['uint8', 'uint8', 'float32'])
@@ -163,14 +188,93 @@ def _valid_case(rng, big):
             if (b, a) not in pairs or rng.random() < 0.3:
                 pairs.add((a, b))
         matches = [{'a': a, 'b': b,
-                    'rows': [[rng.randint(0, 999), rng.randint(0, 999), rng.choice([1.0, round(rng.random(), 3)])]
+                    'rows': [[rng.randint(0, 999), rng.randint(0, 999), _score(rng)]
                              for _ in range(rng.choice([0, 1, 2, 4]))]} for a, b in sorted(pairs)]
         rng.shuffle(matches)
     return {'kind': 'valid', 'cameras': cams, 'images': images, 'points': points, 'kp': kp, 'desc': desc,
             'matches': matches, 'rigs': None}
 
 
+def _feat_names(c):
+    return set((c['kp'] or {'data': {}})['data']) | set((c['desc'] or {'data': {}})['data'])
+
+
+def _prior_for(rng, c, covered):
+    """An earlier dataset that was exported into the same OpenSfM directory before `c` is: the history of a re-used
+    export target.  Same cameras, a subset of the images (the recording grew), other poses and points, features
+    extracted anew (other values, possibly another dtype / width) and other matches.
+    covered=True : every features / matches file the earlier export left is one the export of `c` writes again (features
+                   only on images that have features in `c`; matches only when `c` has matches).
+    covered=False: the earlier export leaves at least one file the export of `c` does not write (features of an image that
+                   has none in `c` or is not in `c`, or matches when `c` has none): leftovers, outside the judged range.
+                   (Same dtype / width as `c` there: with mixed leftovers the importer declares the dtype of whichever file
+                   os.walk yields first and kapture_from_dir re-reads every file with it — bytes reinterpreted, not modelled.)"""
+    p = _valid_case(rng, False)
+    imgs = [dict(im) for im in c['images'] if rng.random() < 0.8] or [dict(c['images'][0])]
+    for im in imgs:
+        cls = rng.choice(['identity', 'unit', 'scaled'])
+        im.update(q=_quat(rng, cls), qclass=cls, t=[float(rng.randint(-5, 5)) for _ in range(3)])
+    names = [im['name'] for im in imgs]
+    cur = _feat_names(c)
+    pool = [n for n in names if n in cur] if covered else list(names)
+    kp = desc = None
+    if pool:
+        some = [n for n in pool if rng.random() < 0.85] or pool[:1]
+        if c['kp'] or not covered:
+            dt, cols = ((c['kp']['dtype'], c['kp']['dsize']) if c['kp'] and (not covered or rng.random() < 0.6)
+                        else (rng.choice(['float32', 'float64']), rng.choice([2, 4, 6])))
+            kp = {'dtype': dt, 'dsize': cols, 'data': {n: _arr(rng, rng.choice([1, 2, 3, 5]), cols, dt) for n in some}}
+        if (c['desc'] or not covered) and rng.random() < 0.8:
+            dt, cols = ((c['desc']['dtype'], c['desc']['dsize']) if c['desc'] and (not covered or rng.random() < 0.6)
+                        else (rng.choice(['uint8', 'float32']), rng.choice([1, 8, 16])))
+            desc = {'dtype': dt, 'dsize': cols,
+                    'data': {n: _arr(rng, len(kp['data'][n]) if kp else rng.randint(1, 4), cols, dt) for n in some}}
+    matches = None
+    if len(names) >= 2 and (c['matches'] or not covered):
+        pairs = set()
+        for m in (c['matches'] or []):
+            if m['a'] in names and m['b'] in names and rng.random() < 0.7:
+                pairs.add((m['a'], m['b']))             # the same pair, matched anew
+        for _ in range(rng.randint(1, 3)):
+            pairs.add(tuple(rng.sample(names, 2)))
+        matches = [{'a': a, 'b': b, 'rows': [[rng.randint(0, 999), rng.randint(0, 999), _score(rng)]
+                                             for _ in range(rng.choice([1, 2, 4]))]} for a, b in sorted(pairs)]
+    p.update(cameras=json.loads(json.dumps(c['cameras'])), images=imgs, kp=kp, desc=desc, matches=matches)
+    if not covered:
+        left = (bool(_feat_names(p) - cur)) or (bool(matches) and not c['matches'])
+        if not left:                                   # force one leftover: an image of the earlier dataset only
+            extra = dict(imgs[0], name='gone/' + imgs[0]['name'], ts=max(im['ts'] for im in imgs) + 7)
+            p['images'].append(extra)
+            k = p['kp'] or {'dtype': 'float32', 'dsize': 4, 'data': {}}
+            k['data'][extra['name']] = _arr(rng, 2, k['dsize'], k['dtype'])
+            p['kp'] = k
+    return p
+
+
+def _covered(c):
+    """every features / matches file of the earlier export is written again by the export of c"""
+    p = c.get('prior')
+    if not p:
+        return True
+    return ({im['name'] for im in p['images']} <= {im['name'] for im in c['images']}
+            and _feat_names(p) <= _feat_names(c) and not (p['matches'] and not c['matches']))
+
+
+def _reexport_case(rng, covered=True):
+    c = _valid_case(rng, False)
+    if rng.random() < 0.7:                             # mostly datasets that do have features
+        while not (c['kp'] or c['desc']):
+            c = _valid_case(rng, False)
+    c['prior'] = _prior_for(rng, c, covered)
+    c['force'] = rng.random() < 0.4                    # force_overwrite_existing of the second export
+    if not covered:
+        c['kind'] = 'out:leftover'
+    return c
+
+
 def _out_of_range(rng, what):
+    if what == 'leftover':
+        return _reexport_case(rng, covered=False)
     c = _valid_case(rng, False)
     c['kind'] = 'out:' + what
     if what == 'othercam':
@@ -205,7 +309,9 @@ def gen_cases(rng, tier):
                       'matches': None, 'rigs': None})
     for i in range(n_valid):
         cases.append(_valid_case(rng, big=(i % 3 == 0)))
-    for what in ('othercam', 'unposed', 'rig', 'pts3', 'offcentre', 'nonint'):
+    for i in range(n_valid // 5):                      # histories: the export target already holds an earlier export
+        cases.append(_reexport_case(rng))
+    for what in ('othercam', 'unposed', 'rig', 'pts3', 'offcentre', 'nonint', 'leftover'):
         for _ in range(n_out):
             cases.append(_out_of_range(rng, what))
     return cases
@@ -350,14 +456,20 @@ def run_impl(case, ctx):
     logging.getLogger().setLevel(logging.CRITICAL)
     base = os.path.join(ctx['tmp'], 'c')
     shutil.rmtree(base, ignore_errors=True)
-    k1, osfm, k2 = (os.path.join(base, x) for x in ('kapture_in', 'opensfm', 'kapture_back'))
+    k0, k1, osfm, k2 = (os.path.join(base, x) for x in ('kapture_before', 'kapture_in', 'opensfm', 'kapture_back'))
     os.makedirs(k1)
-    obs = {'input': None, 'project': None, 'back': None, 'export_exc': None, 'import_exc': None}
+    obs = {'input': None, 'prior_project': None, 'project': None, 'back': None, 'export_exc': None, 'import_exc': None}
     try:
+        if case.get('prior'):                              # history: an earlier export into the same directory
+            os.makedirs(k0)
+            _build(case['prior'], k0)
+            export_opensfm(k0, osfm, force_overwrite_existing=True, keypoints_type=KP, descriptors_type=DS)
+            obs['prior_project'] = _read_project(osfm)
         _build(case, k1)
         obs['input'] = _view(kapture_from_dir(k1), k1)     # the dataset as the exporter will read it
         try:
-            export_opensfm(k1, osfm, force_overwrite_existing=True, keypoints_type=KP, descriptors_type=DS)
+            export_opensfm(k1, osfm, force_overwrite_existing=bool(case.get('force', True)),
+                           keypoints_type=KP, descriptors_type=DS)
             obs['project'] = _read_project(osfm)
         except Exception as e:       # the implementation's failure is an observed outcome
             obs['export_exc'] = _exc(e)
@@ -399,7 +511,7 @@ def _persp(cam):
 
 
 def oracle(case, obs):
-    if case['kind'] != 'valid':
+    if case['kind'] != 'valid' or not _covered(case):
         return None                    # outside the quantifier: only the model correspondence is checked
     if obs['export_exc']:
         return 'export raised ' + obs['export_exc'].split(':')[0]
@@ -536,9 +648,10 @@ def encode(case, obs):
             t = tq.get((im['ts'], im['cam']))
             if s is not None and 'rotation' in s and t is not None and t['q'] is not None:
                 table.append(kv.cpair(_quatc(t['q']), _vecc(s['rotation'])))
-    return '(mkCase %s %s %s %s)' % (_dataset(a), kv.clist(table),
-                                     kv.copt(None if obs['project'] is None else _project(obs['project'])),
-                                     kv.copt(None if obs['back'] is None else _dataset(obs['back'])))
+    return '(mkCase %s %s %s %s %s)' % (_dataset(a), kv.clist(table),
+                                        kv.copt(None if obs.get('prior_project') is None else _project(obs['prior_project'])),
+                                        kv.copt(None if obs['project'] is None else _project(obs['project'])),
+                                        kv.copt(None if obs['back'] is None else _dataset(obs['back'])))
 
 
 # ------------------------------------------------------------------ evidence helpers
@@ -552,7 +665,8 @@ def classify(case, obs):
     pts = 'none' if n < 0 else ('0' if n == 0 else ('1-10' if n <= 10 else '>10'))
     feat = ('kp' if case['kp'] else '') + ('+ds' if case['desc'] else '') or 'nofeat'
     out = 'export-raised' if obs['export_exc'] else ('import-raised' if obs['import_exc'] else 'ok')
-    return f'{case["kind"]}/pts={pts}/{feat}/{"matches" if case["matches"] else "nomatches"}/{out}'
+    hist = '/re-export' + ('-forced' if case.get('force') else '') if case.get('prior') else ''
+    return f'{case["kind"]}{hist}/pts={pts}/{feat}/{"matches" if case["matches"] else "nomatches"}/{out}'
 
 
 def describe(case, obs):
@@ -562,11 +676,42 @@ def describe(case, obs):
             'keypoints': None if not case['kp'] else {n: len(r) for n, r in case['kp']['data'].items()},
             'descriptors': None if not case['desc'] else {n: len(r) for n, r in case['desc']['data'].items()},
             'matches': None if not case['matches'] else [(m['a'], m['b'], len(m['rows'])) for m in case['matches']],
+            'earlier_export_into_same_directory': None if not case.get('prior') else {
+                'images': [im['name'] for im in case['prior']['images']],
+                'keypoints': None if not case['prior']['kp'] else sorted(case['prior']['kp']['data']),
+                'matches': None if not case['prior']['matches'] else [(m['a'], m['b']) for m in case['prior']['matches']],
+                'force_overwrite_existing': case.get('force')},
             'observed': {'export_exc': obs['export_exc'], 'import_exc': obs['import_exc'],
                          'points_back': None if not obs['back'] or obs['back']['points'] is None else len(obs['back']['points'])}}
 
 
 def shrink(case):
+    for c in _shrink(case):
+        if c.get('prior'):
+            names = {im['name'] for im in c['images']}
+            pr = c['prior']
+            pr['images'] = [im for im in pr['images'] if im['name'] in names]
+            for k in ('kp', 'desc'):
+                if pr[k]:
+                    pr[k]['data'] = {n: r for n, r in pr[k]['data'].items() if n in names}
+            if pr['matches']:
+                pr['matches'] = [m for m in pr['matches'] if m['a'] in names and m['b'] in names] or None
+            if not pr['images'] or (case['kind'] == 'valid' and not _covered(c)):
+                continue
+        yield c
+
+
+def _shrink(case):
+    if case.get('prior'):                                # does it fail without the history?
+        c = json.loads(json.dumps(case))
+        c['prior'] = None
+        yield c
+        pr = case['prior']
+        for k in ('matches', 'desc', 'kp', 'points'):
+            if pr.get(k):
+                c = json.loads(json.dumps(case))
+                c['prior'][k] = None
+                yield c
     if case['points'] and len(case['points']) > 10:     # first leave the territory of the known finding
         c = json.loads(json.dumps(case))
         c['points'] = c['points'][:10]
@@ -635,4 +780,7 @@ LEVEL_NOTE = ('KNOWN FINDING (not repaired in the tree, see docs/C15.md): import
               'C15_points_sequence_refuted is the 11-point witness, C15_repaired_* state the full clause for the numeric-order repair '
               '(fixes/not-applied/). partial: JSON / npz / pickle / CSV layers, file copies and the quaternion library are trusted and only exercised; float '
               'rounding is outside the model. Datasets with rig-mounted cameras, partial poses, XYZ-only clouds or several feature '
-              'types are outside in_range (the first three make the converters raise; observed and modelled as outcomes).')
+              'types are outside in_range (the first three make the converters raise; observed and modelled as outcomes). Histories: a re-used '
+              'export directory is modelled as it is (export_onto: nothing is ever removed); the property is proved and judged for covered '
+              'histories; leftovers of an uncovered history survive into the import (C15_reexport_leftover_keypoints_as_is; observation with a '
+              'proposed repair in fixes/not-applied/), compared with the model but not judged.')
